@@ -248,3 +248,65 @@ Record wire_ok (W : wire) : Prop := {
   w_fn32_eq : forall a b, nan32 a = false -> nan32 b = false -> feq32 (fn32 W a) (fn32 W b) = feq32 a b;
   w_fn64_eq : forall a b, nan64 a = false -> nan64 b = false -> feq64 (fn64 W a) (fn64 W b) = feq64 a b
 }.
+
+(* ---- the losses as an explicit record (what a format documents), so that the
+   per-format statements do not mention the wire record ---- *)
+Record losses := mklosses {
+  l_fn32 : N -> N;
+  l_fn64 : N -> N;
+  l_tnorm : Z -> N -> Z * N;
+  l_tnil : Z -> N -> bool           (* this instant is written as nil *)
+}.
+
+Definition losses_of (W : wire) : losses :=
+  {| l_fn32 := fn32 W; l_fn64 := fn64 W; l_tnorm := tnorm W; l_tnil := fun s n => is_nil W (wn W (ITime s n)) |}.
+
+Section NormL.
+  Variable L : losses.
+  Variable O : gopts.
+  Fixpoint nilencL (v : gv) : bool :=
+    match v with
+    | GBytes None | GList None | GMap None => negb (nil_to_empty O)
+    | GPtr None => true
+    | GPtr (Some x) => nilencL x
+    | GTime s n => l_tnil L s n
+    | _ => false
+    end.
+  Fixpoint normL (v : gv) {struct v} : gv :=
+    match v with
+    | GF32 b => GF32 (l_fn32 L b)
+    | GF64 b => GF64 (l_fn64 L b)
+    | GTime s n => let sn := l_tnorm L s n in GTime (fst sn) (snd sn)
+    | GBytes None => if nil_to_empty O then GBytes (Some []) else v
+    | GList None => if nil_to_empty O then GList (Some []) else v
+    | GMap None => if nil_to_empty O then GMap (Some []) else v
+    | GList (Some l) => GList (Some (map normL l))
+    | GArr l => GArr (map normL l)
+    | GMap (Some l) => GMap (Some (map (fun kv => (normL (fst kv), normL (snd kv))) l))
+    | GPtr (Some x) => if nilencL x then GPtr None else GPtr (Some (normL x))
+    | GStruct fs => GStruct (map (fun nv => (fst nv, normL (snd nv))) fs)
+    | _ => v
+    end.
+End NormL.
+
+Definition same_losses (A B : losses) : Prop :=
+  (forall b, l_fn32 A b = l_fn32 B b) /\ (forall b, l_fn64 A b = l_fn64 B b) /\
+  (forall s n, l_tnorm A s n = l_tnorm B s n) /\ (forall s n, l_tnil A s n = l_tnil B s n).
+
+(* t.Round(time.Microsecond): halfway values round up *)
+Definition round_us (s : Z) (n : N) : Z * N :=
+  let us := ((n + 500) / 1000)%N in
+  if N.eqb us 1000000 then ((s + 1)%Z, 0%N) else (s, (us * 1000)%N).
+
+Definition is_time_zero (s : Z) (n : N) : bool := Z.eqb s time_zero_sec && N.eqb n 0.
+
+(* the losses each format documents *)
+(* cbor: time as microseconds (cbor.go:105-121, 599-613); floats exact; zero time as nil *)
+Definition cbor_losses : losses := mklosses (fun b => b) (fun b => b) round_us is_time_zero.
+(* msgpack, simple, json: nanoseconds, floats exact, zero time as nil *)
+Definition exact_losses : losses := mklosses (fun b => b) (fun b => b) (fun s n => (s, n)) is_time_zero.
+(* binc: one code for a zero float (binc.go:50-52 bincSpZeroFloat): the sign of zero is lost;
+   one code for NaN (bincSpNan): the payload is lost *)
+Definition binc_fn64 (b : N) : N := if N.eqb (b mod 2 ^ 63) 0 then 0%N else if nan64 b then (2047 * 2 ^ 52 + 2 ^ 51 + 1)%N else b.
+Definition binc_fn32 (b : N) : N := if N.eqb (b mod 2 ^ 31) 0 then 0%N else if nan32 b then (255 * 2 ^ 23 + 2 ^ 22)%N else b.
+Definition binc_losses : losses := mklosses binc_fn32 binc_fn64 (fun s n => (s, n)) is_time_zero.
